@@ -161,7 +161,7 @@ PROPS = {
         "assumptions": [],
     },
     "C02": {
-        "lean": ["Knut.Properties.C02", "Knut.Properties.C02Close", "Knut.Properties.C02Command", "Knut.FactsAgree.TransProcess", "Knut.FactsAgree.TransQuery", "Knut.FactsAgree.TransAmountsSum", "Knut.FactsAgree.TransReport", "Knut.FactsAgree.TransReportTotals", "Knut.FactsAgree.TransReportSort", "Knut.FactsAgree.TransRender", "Knut.FactsAgree.TransRenderVals", "Knut.FactsAgree.TransMapping", "Knut.FactsAgree.TransSwapType", "Knut.FactsAgree.TransBalanceCmd", "Knut.Properties.C02Go"],
+        "lean": ["Knut.Properties.C02", "Knut.Properties.C02Close", "Knut.Properties.C02Command", "Knut.FactsAgree.TransProcess", "Knut.FactsAgree.TransQuery", "Knut.FactsAgree.TransAmountsSum", "Knut.FactsAgree.TransReport", "Knut.FactsAgree.TransReportTotals", "Knut.FactsAgree.TransReportSort", "Knut.FactsAgree.TransRender", "Knut.FactsAgree.TransRenderVals", "Knut.FactsAgree.TransMapping", "Knut.FactsAgree.TransSwapType", "Knut.FactsAgree.TransBalanceCmd", "Knut.FactsAgree.TransBalanceCmdGo", "Knut.Properties.C02Go"],
         "level": "proof",
         "claim": "Spec.ledgerEntries (Spec/Ledger.lean) defines the report independently of the pipeline: window bookings mapped/filtered/aligned plus, with closing, the transfer of "
                  "each income/expense/equity total booked in [previous closing day, s) to Equity:Equity at every shown period start. Proved for all journals and flags: C02_noclose (without "
@@ -186,7 +186,7 @@ PROPS = {
                         "translated account mapping and balance query (FactsAgree/TransMapping, TransSwapType, TransBalanceCmd): a compiled regular expression is read as its match predicate (GoSem/RegexpMatch.lean; which predicate a pattern denotes is outside the reading, as in the model); the account registry is not translated: MustGetPath and SwapType/Get are parameters assumed to return THE account of the path / name asked for; of cmd/commands/balance.go execute the journal.Query literal and Multiperiod.Partition are translated, the rest (processor list with its arguments, setup statements, renderer literals, flags) is pinned by source text"],
     },
     "C01": {
-        "lean": ["Knut.Properties.C01", "Knut.Properties.C01Table", "Knut.FactsAgree.TransAccount", "Knut.FactsAgree.TransPosting", "Knut.FactsAgree.TransTransaction", "Knut.FactsAgree.TransProcess", "Knut.FactsAgree.TransQuery", "Knut.FactsAgree.TransAmountsSum", "Knut.FactsAgree.TransReport", "Knut.FactsAgree.TransReportTotals", "Knut.FactsAgree.TransReportSort", "Knut.FactsAgree.TransRender", "Knut.FactsAgree.TransRenderVals", "Knut.FactsAgree.TransMapping", "Knut.FactsAgree.TransSwapType", "Knut.FactsAgree.TransBalanceCmd", "Knut.Properties.C01Go"],
+        "lean": ["Knut.Properties.C01", "Knut.Properties.C01Table", "Knut.FactsAgree.TransAccount", "Knut.FactsAgree.TransPosting", "Knut.FactsAgree.TransTransaction", "Knut.FactsAgree.TransProcess", "Knut.FactsAgree.TransQuery", "Knut.FactsAgree.TransAmountsSum", "Knut.FactsAgree.TransReport", "Knut.FactsAgree.TransReportTotals", "Knut.FactsAgree.TransReportSort", "Knut.FactsAgree.TransRender", "Knut.FactsAgree.TransRenderVals", "Knut.FactsAgree.TransMapping", "Knut.FactsAgree.TransSwapType", "Knut.FactsAgree.TransBalanceCmd", "Knut.FactsAgree.TransBalanceCmdGo", "Knut.Properties.C01Go"],
         "level": "proof",
         "claim": "Lean theorems over the model of the whole balance pipeline (check, ComputePrices, Valuate with daily value adjustments, Filter, CloseAccounts, Query, report totals): "
                  "C01_entries_cancel (for every journal made of posting pairs, every window/interval/--last/--diff/--close/--remap/-m level>=1, valued or not, without filters, the report inserts "
